@@ -14,6 +14,7 @@ import (
 	"os"
 	"strings"
 	"sync"
+	"sync/atomic"
 	"testing"
 	"time"
 
@@ -34,10 +35,10 @@ type Program struct {
 	Ops    [][]int `json:"ops"` // per goroutine: operation codes
 }
 
-var families = []string{"buffer", "deadline", "dpipe", "vnet", "filters", "udp", "build-networks"}
+var families = []string{"buffer", "deadline", "dpipe", "vnet", "filters", "udp", "build-networks", "nat"}
 
 // number of operation codes per family
-var nOps = map[string]int{"buffer": 9, "deadline": 6, "dpipe": 7, "vnet": 10, "filters": 9, "udp": 7, "build-networks": 3}
+var nOps = map[string]int{"buffer": 9, "deadline": 6, "dpipe": 7, "vnet": 10, "filters": 9, "udp": 7, "build-networks": 3, "nat": 10}
 
 func quiet() logging.LoggerFactory {
 	lf := logging.NewDefaultLoggerFactory()
@@ -429,7 +430,103 @@ func newWorld(family string, goroutines int) (*world, error) {
 			},
 		}, nil
 	}
+	if family == "nat" {
+		return newNATWorld(goroutines)
+	}
 	return nil, fmt.Errorf("unknown family %s", family)
+}
+
+// newNATWorld: a WAN router with two hosts and a child LAN router behind a
+// NAPT (endpoint-independent mapping, address-and-port-dependent filtering, or
+// symmetric), one LAN host. Outbound traffic is translated on the LAN router's
+// goroutine, inbound traffic on the WAN router's goroutine, both on the same
+// translation tables.
+func newNATWorld(goroutines int) (*world, error) {
+	lf := quiet()
+	wan, err := vnet.NewRouter(&vnet.RouterConfig{CIDR: "27.0.0.0/8", LoggerFactory: lf})
+	if err != nil {
+		return nil, err
+	}
+	nt := &vnet.NATType{MappingBehavior: vnet.EndpointIndependent, FilteringBehavior: vnet.EndpointAddrPortDependent, MappingLifeTime: 2 * time.Millisecond}
+	if goroutines%2 == 1 {
+		nt = &vnet.NATType{MappingBehavior: vnet.EndpointAddrPortDependent, FilteringBehavior: vnet.EndpointAddrDependent, MappingLifeTime: time.Hour}
+	}
+	lan, err := vnet.NewRouter(&vnet.RouterConfig{CIDR: "192.168.0.0/24", StaticIPs: []string{"27.0.0.1"}, LoggerFactory: lf, NATType: nt})
+	if err != nil {
+		return nil, err
+	}
+	w1, _ := vnet.NewNet(&vnet.NetConfig{StaticIPs: []string{"27.0.0.50"}})
+	w2, _ := vnet.NewNet(&vnet.NetConfig{StaticIPs: []string{"27.0.0.51"}})
+	lh, _ := vnet.NewNet(&vnet.NetConfig{StaticIPs: []string{"192.168.0.10"}})
+	for _, e := range []error{wan.AddNet(w1), wan.AddNet(w2), lan.AddNet(lh), wan.AddRouter(lan), wan.Start()} {
+		if e != nil {
+			return nil, e
+		}
+	}
+	s1, err := w1.ListenUDP("udp", &net.UDPAddr{IP: net.ParseIP("27.0.0.50"), Port: 9000})
+	if err != nil {
+		return nil, err
+	}
+	s2, err := w2.ListenUDP("udp", &net.UDPAddr{IP: net.ParseIP("27.0.0.51"), Port: 9000})
+	if err != nil {
+		return nil, err
+	}
+	cl, err := lh.ListenUDP("udp", &net.UDPAddr{IP: net.ParseIP("192.168.0.10"), Port: 4000})
+	if err != nil {
+		return nil, err
+	}
+	a1 := &net.UDPAddr{IP: net.ParseIP("27.0.0.50"), Port: 9000}
+	a2 := &net.UDPAddr{IP: net.ParseIP("27.0.0.51"), Port: 9000}
+	// establish one binding and learn its external address
+	if _, err = cl.WriteTo([]byte("hello"), a1); err != nil {
+		return nil, err
+	}
+	buf := make([]byte, 64)
+	_ = s1.SetReadDeadline(time.Now().Add(2 * time.Second))
+	_, ext, err := s1.ReadFrom(buf)
+	if err != nil {
+		return nil, err
+	}
+	_ = s1.SetReadDeadline(time.Time{})
+	var nextPort atomic.Int32
+	nextPort.Store(10000)
+	return &world{
+		run: func(g, op int) {
+			switch op {
+			case 0:
+				_, _ = cl.WriteTo([]byte("out"), a1)
+			case 1:
+				// first datagram to a new remote through the existing binding
+				_, _ = cl.WriteTo([]byte("new"), &net.UDPAddr{IP: a1.IP, Port: int(nextPort.Add(1))})
+			case 2:
+				_, _ = cl.WriteTo([]byte("out2"), a2)
+			case 3:
+				_, _ = s1.WriteTo([]byte("in"), ext)
+			case 4:
+				_, _ = s2.WriteTo([]byte("in2"), ext)
+			case 5:
+				_ = cl.SetReadDeadline(soon())
+				_, _, _ = cl.ReadFrom(make([]byte, 64))
+			case 6:
+				_ = s1.SetReadDeadline(soon())
+				_, _, _ = s1.ReadFrom(make([]byte, 64))
+			case 7:
+				if cn, err := lh.ListenUDP("udp", &net.UDPAddr{IP: net.ParseIP("192.168.0.10")}); err == nil {
+					_, _ = cn.WriteTo([]byte("x"), a2)
+					_ = cn.Close()
+				}
+			case 8:
+				for i := 0; i < 4; i++ {
+					_, _ = s1.WriteTo([]byte("burst-in"), ext)
+					_, _ = cl.WriteTo([]byte("burst-new"), &net.UDPAddr{IP: a2.IP, Port: int(nextPort.Add(1))})
+				}
+			case 9:
+				time.Sleep(2500 * time.Microsecond) // past the short mapping lifetime
+				_, _ = cl.WriteTo([]byte("after-expiry"), a1)
+			}
+		},
+		release: func() { _ = cl.Close(); _ = s1.Close(); _ = s2.Close(); _ = wan.Stop() },
+	}, nil
 }
 
 // execute runs the program once; returns false if it did not finish in time.
@@ -484,11 +581,11 @@ func genProgram(t *rapid.T) Program {
 	return p
 }
 
-const ruleC19 = "rapid-drawn client programs: one family of shared objects (packetio.Buffer; deadline.Deadline; a dpipe pair; a vnet router with two hosts, their sockets, ListenUDP/Dial, AddChunkFilter, Stop/Start; a router with a TokenBucketFilter and a LossFilter under traffic while TBFRate/TBFMaxBurst are Set; a udp listener with Accept/Close and connection Read/Write/Close on a real socket; building independent virtual networks in parallel), 2..6 goroutines each running 1..8 drawn operations concurrently; executed for real in a binary built with -race and GORACE=halt_on_error=1; oracle: the race detector (any report is a violation); every program touches the shared objects from >=2 goroutines with mutating operations, so every program counts as non-trivial; distinct by hash of the program"
+const ruleC19 = "rapid-drawn client programs: one family of shared objects (packetio.Buffer; deadline.Deadline; a dpipe pair; a vnet router with two hosts, their sockets, ListenUDP/Dial, AddChunkFilter, Stop/Start; a router with a TokenBucketFilter and a LossFilter under traffic while TBFRate/TBFMaxBurst are Set; a udp listener with Accept/Close and connection Read/Write/Close on a real socket; building independent virtual networks in parallel; a LAN router behind a NAPT under outbound traffic to known and new remotes, inbound traffic to the learned external address, new sockets and mapping expiry), 2..6 goroutines each running 1..8 drawn operations concurrently; executed for real in a binary built with -race and GORACE=halt_on_error=1; oracle: the race detector (any report is a violation); every program touches the shared objects from >=2 goroutines with mutating operations, so every program counts as non-trivial; distinct by hash of the program"
 
 func TestC19Programs(t *testing.T) {
 	r := ev.New("C19", "programs", ruleC19)
-	r.Essential = []string{"family/buffer", "family/deadline", "family/dpipe", "family/vnet", "family/filters", "family/udp", "family/build-networks"}
+	r.Essential = []string{"family/buffer", "family/deadline", "family/dpipe", "family/vnet", "family/filters", "family/udp", "family/build-networks", "family/nat"}
 	r.MinForEssential = 200
 	r.Assume("the race detector reports only races between accesses that the generated program actually performs in this run; API combinations outside the catalogue are not covered")
 	r.Check(t, func(t *rapid.T, c *ev.Case) {
